@@ -54,5 +54,16 @@ let () =
         (match shard_tool_fields (zlist_of_hex spec) d (n_of_string n) bs with
          | Some outs -> print_endline ("OK " ^ String.concat "," (List.map hex_or_dash outs))
          | None -> print_endline "BADSPEC")
+      | ["A"; fields; prefix; number; outputs; compress] ->
+        (* option handling: fields hex, prefix hex | "-" (absent), number | "-" (absent), outputs hex,hex | "-", compress hex *)
+        let o = { o_fields = zlist_of_hex fields;
+                  o_prefix = (if prefix = "-" then None else Some (if prefix = "e" then [] else zlist_of_hex prefix));
+                  o_number = (if number = "-" then None else Some (n_of_string number));
+                  o_outputs = (if outputs = "-" then [] else List.map zlist_of_hex (String.split_on_char ',' outputs));
+                  o_compress = zlist_of_hex compress } in
+        (match shard_parse_args o with
+         | None -> print_endline "ERR"
+         | Some ((_, outs), c) ->
+           print_endline ("OK " ^ String.concat "," (List.map hex_or_dash outs) ^ " " ^ (match c with CNone -> "0" | CGzip -> "1" | CBzip -> "2")))
       | ["K"] -> print_endline ("K " ^ string_of_int (int_of_n kBlockSize))
       | _ -> print_endline "?")
